@@ -42,10 +42,12 @@ def mint_h(name, bounds, **kw):
     kw.setdefault('models', MINT_MODELS)
     return Harness(name, 'mint', MINT_FILES, bounds=bounds, **kw)
 
+RACE_MELT_MELT = mint_h('VHarnessRaceMeltMelt', '2 concurrent melts (different quotes) of the same genuine proof, schedule symbolic at storage / Lightning call granularity, <= 2 pre-emptions, backend answers scripted symbolically', sched=True, must_reach=('joined', 'one-honoured'))
 def c01(tier):
     return [
         mint_h('VHarnessRaceSwapSwap', '2 concurrent swaps of the same genuine proof, schedule symbolic at storage-call granularity, <= 2 pre-emptions', sched=True, must_reach=('joined', 'one-honoured')),
-        mint_h('VHarnessRaceSwapMelt', 'swap and melt of the same genuine proof concurrently, schedule symbolic, <= 2 pre-emptions', sched=True, must_reach=('joined', 'one-honoured')),mint_h('VHarnessSwapC01', 'swap: <= 2 inputs, <= 1 output, every field free; 2 proofs + 1 pending + 1 blind_signatures arbitrary rows',
+        mint_h('VHarnessRaceSwapMelt', 'swap and melt of the same genuine proof concurrently, schedule symbolic, <= 2 pre-emptions', sched=True, must_reach=('joined', 'one-honoured')),
+        RACE_MELT_MELT,mint_h('VHarnessSwapC01', 'swap: <= 2 inputs, <= 1 output, every field free; 2 proofs + 1 pending + 1 blind_signatures arbitrary rows',
                    must_reach=('swap-accepted', 'swap-rejected')),
         mint_h('VHarnessMeltC05', 'melt + 1 poll with a scripted backend (<= 3 answers): the inputs of a melt whose payment may still settle stay locked - released only after a definitive failure (else they could be spent a second time)', must_reach=('poll-1',))]
 
@@ -54,6 +56,7 @@ def c03(tier):
         mint_h('VHarnessRaceMintMint', '2 concurrent mint requests with different outputs on one PAID quote, schedule symbolic, <= 2 pre-emptions', sched=True, must_reach=('joined',)),
         mint_h('VHarnessRaceMintWatcher', 'mint request + real invoice watcher (checkInvoicePaid) + second mint request, schedule symbolic, <= 2 pre-emptions', sched=True, must_reach=('joined',)),mint_h('VHarnessMintTokensC03', 'mint: quote in any state, optional NUT-20 lock, <= 2 free outputs, 6 signature variants, 1 arbitrary blind_signatures row',
                    must_reach=('mint-accepted', 'mint-rejected')),
+        mint_h('VHarnessFaultMeltInternalC03', 'melt settled internally against an UNPAID mint quote of the same invoice; storage error at any one storage call or a failing invoice lookup (position symbolic); then a mint request on that quote', sched=True, must_reach=('struck', 'not-struck', 'settled-internally')),
         mint_h('VHarnessMintTokensWrap', 'mint: PAID unlocked quote of arbitrary amount, exactly 4 well-formed outputs over the denominations {1, 2^61, 2^62} (totals up to 2^64: 64-bit wrap-around)', must_reach=('wrap-accepted', 'wrap-rejected'))]
 
 def c06(tier):
@@ -71,6 +74,7 @@ def c06(tier):
 def c15(tier):
     return [
         mint_h('VHarnessQueryC15', 'checkstate / restore: 0..2 arbitrary entries; 2 spent + 1 pending + 2 signature arbitrary rows', must_reach=('checkstate-ok', 'restore-ok')),
+        mint_h('VHarnessFaultQueryC15', 'restore / checkstate of 1..2 arbitrary entries over 1 spent + 2 signature arbitrary rows with a storage error injected at any one storage call (position symbolic)', sched=True, must_reach=('restore-struck', 'restore-answered', 'checkstate-struck', 'checkstate-answered')),
         mint_h('VHarnessSwapC15', 'swap then checkstate + restore: <= 2 inputs, <= 2 outputs', must_reach=('swap-accepted',)),
         mint_h('VHarnessMeltC05', 'melt of 1 input carrying an arbitrary witness + 1 poll (quote state or checkstate) with a scripted backend (<= 3 answers), then a final state check: state and witness reported for every path the input took', must_reach=('poll-1',)),
     ]
@@ -86,12 +90,14 @@ def c07(tier):
     kw = dict(sched=True)
     hs = []
     for op, b in (('Swap', '1 genuine input, 1 output'), ('Mint', 'PAID quote, 1 output'), ('Melt', '1 genuine input, backend script <= 2 answers'),
+                  ('MeltInternal', '1 genuine input, melt quote and UNPAID mint quote share one invoice (internal settlement), follow-up mint request'),
                   ('Poll', 'PENDING quote with 1 locked input, 1 backend answer'), ('Rotate', 'one stored keyset, arbitrary new fee')):
         hs.append(mint_h('VHarnessCrash' + op, op + ': ' + b + '; crash before any one of its storage / Lightning calls (position symbolic), restart, follow-up probes', must_reach=('struck', 'not-struck'), **kw))
         hs.append(mint_h('VHarnessFault' + op, op + ': ' + b + '; storage error injected at any one of its storage calls (position symbolic), follow-up probes', must_reach=('struck', 'not-struck'), **kw))
     return hs
 def c05(tier):
     hs = [mint_h('VHarnessMeltC05', 'melt + 1 poll: 1 genuine input, quote amount/reserve/MPP symbolic, backend script <= 3 answers (status symbolic, error kind enumerated), poll through quote state or checkstate', must_reach=('poll-1',))]
+    hs.append(RACE_MELT_MELT)
     if tier == 'thorough':
         hs.append(mint_h('VHarnessMeltC05Polls', 'melt + 2 polls: backend script <= 4 answers', must_reach=('poll-2',), timeout_s=1800))
     return hs
